@@ -1,7 +1,7 @@
 # Edited by hand; read by tools/gen_manifest.py.
 T_ASSUME = 'Trusted: pyvc encoder (tested by canaries/mutants/differential runs), z3, cvc5, CPython semantics as modelled in vlib/pyvc/lib.py; partial correctness only. '
 
-claim('C01', 'other', 'contract-based deductive verification: VCs generated from the real source by symbolic execution (pyvc), discharged by z3/cvc5; fold induction for n-ary operators',
+claim('C01', 'other', 'contract-based deductive verification: VCs generated from the real source by symbolic execution (pyvc), discharged by z3/cvc5; fold induction for n-ary operators; loop invariants for both evaluators over the contract of top_sort; bounded stand-in for the thin wrappers',
       'Unbounded proof that every operator, every GateType constant and every foreign gate table (synthesis codes, arithmetic codes) denotes the one fixed OP(t) for all Boolean arguments and all arities; '
       'bench conversion and pattern simulation likewise; evaluate_full_circuit AND the stack-based evaluate_circuit are proved to return den for every gate / requested output of every well-formed circuit (loop invariants; top_sort by its contract, proved under C20). The thin wrappers (evaluate, evaluate_at, truth tables) are exercised by the bounded stand-in, so the claim is not `proof`.',
       T_ASSUME + 'Bounded part: circuits with <=2 gates exhaustive, seeded random up to 7 gates.', 'DESIGN.md §6 C01')
@@ -11,13 +11,13 @@ claim('C05', 'other', 'contract-based deductive verification of the Tseytin tran
       'obeys its gate equation and every selected output is true (invariants of both loops; process_gate verified against its contract per gate type/arity, recursive calls by the contract). Rule R2 lifts this to the statement about evaluation. '
       'The solver hand-back (is_circuit_satisfiable), larger arities inside whole circuits and the end-to-end statement are exercised by the bounded stand-in, so the claim is not `proof`.',
       T_ASSUME + 'SAT solver soundness/completeness assumed (python-sat absent; z3-backed shim in the bounded layer); proof rule for recursive procedures (partial correctness); rule R2.', 'DESIGN.md §6 C05')
-claim('C14', 'other', 'contract-based deductive verification on an abstract heap (state as substitution): convert_gate with all callees inlined, WF/frame/local-equation obligations, loop invariant by prefix-count view',
+claim('C14', 'other', 'contract-based deductive verification on an abstract heap (state as substitution): convert_gate with all callees inlined (WF/frame/local-equation obligations, loop invariant by prefix-count view) and into_bench as a whole by a loop invariant with convert_gate used through its contract; bounded stand-in end to end',
       'For an arbitrary well-formed circuit and an arbitrary gate of each of the 18 types, convert_gate preserves WF (users multiset, inputs, outputs, acyclicity via ghost rank, blocks), '
       'changes only that gate plus one fresh helper, keeps the local gate equation, leaves only bench types and puts the helper into the blocks of the gate — proved for all circuits. '
       'into_bench as a whole is proved on an arbitrary circuit by a loop invariant with convert_gate used through that contract: WF kept, only bench types remain, original gates, inputs and outputs kept, '
       'and every valuation satisfying the new gate equations satisfies the original ones (rule R2 turns this into truth-table preservation). The end-to-end statement is additionally exercised by the bounded stand-in.',
       T_ASSUME + 'Proof rule R2 (DAG induction) lifts the local equation to truth-table preservation; ARITY precondition on the converted gate.', 'DESIGN.md §6 C14')
-claim('C15', 'other', 'contract-based deductive verification of the three-valued operator tables (monotonicity/totality VCs, fold induction); bounded stand-in for circuit-level evaluation',
+claim('C15', 'other', 'contract-based deductive verification of the three-valued operator tables (monotonicity/totality VCs, fold induction) and of both evaluation loops under partial assignments (loop invariants: totality, soundness w.r.t. every completion); bounded stand-in for circuit-level monotonicity',
       'Every operator is proved monotone w.r.t. the information order and total on total arguments for all argument values; n-ary operators are proved to be folds of their binary case for every arity; '
       'the totality clause is proved at circuit level for every well-formed circuit: under a total Boolean assignment evaluate_full_circuit leaves no gate Undefined and evaluate_circuit leaves no requested output Undefined (the C01 loop invariants). '
       'Soundness at circuit level is proved for evaluate_full_circuit and for the stack-based evaluate_circuit: for every well-formed circuit, every PARTIAL assignment (inputs missing or Undefined) and every completion of it, each returned value is Undefined or equals the value under the completion. '
@@ -44,7 +44,7 @@ NA['C20'] = 'no deductive obligation built yet for this property in this build (
 import re as _re
 for _k in ('C02', 'C07', 'C09'):
     NA.pop(_k, None)
-claim('C02', 'other', 'contract-based deductive verification (class-invariant rule R5) on an abstract heap: real mutator bodies symbolically executed, WF clauses discharged by z3/cvc5; prefix-count loop invariants for gates of arbitrary arity; modular call rule for the users-index primitives',
+claim('C02', 'other', 'contract-based deductive verification (class-invariant rule R5) on an abstract heap: real mutator bodies symbolically executed, WF clauses discharged by z3/cvc5; prefix-count / closed-form / havoc loop invariants (arbitrary arity, lists of any length, top_sort through its contract for copy), modular call rule for the users-index primitives and convert_gate',
       'For an arbitrary well-formed circuit: _add_user/_remove_user meet the contracts used at their call sites; _emplace_gate, _add_gate, emplace_gate, add_gate (gate of any type and ANY arity), remove_gate/_remove_gate (incl. blocks and outputs), '
       'rename_gate (arbitrary arity, any number of users, repeated outputs, blocks; three loops cut by closed-form invariants), into_bench (loop invariant, convert_gate through its contract proved under C14), set_inputs (lists of any length), add_inputs (<=2 labels), copy.copy / __copy__ (the copy has the same gates, inputs, outputs and generic block, is well formed, shares no container with the original, which stays untouched), order_inputs / order_outputs with utils.order_list (lists of any length, requested prefix <=3), make_block with given lists (<=2 labels each), mark_as_output, set_outputs, delete_block preserve every WF clause, with exact raise conditions and untouched state on raise — proved for all circuits; converters: see C14. '
       'The other public mutators (replace_inputs: C19, make_block with collected inputs, make_block_from_slice, remove_block, connect_circuit family, replace_subcircuit) and whole histories are exercised by the bounded stand-in, so the claim is not `proof`.',
@@ -79,7 +79,7 @@ claim('C13', 'other', 'contract-based deductive verification of the comparison s
       'Proved: add_pairwise_xor adds fresh XOR gates computing the pointwise difference (n<=3, all aliasing, WF kept); build_miter raises MiterDifferentShapesError exactly for mismatched shapes before touching its operands. '
       'The composition steps and the evaluated miter are bounded-only.',
       T_ASSUME, 'DESIGN.md §6 C13')
-claim('C19', 'other', 'contract-based deductive verification on the abstract heap: remove_gate, replace_inputs and rename_gate (closed-form loop invariants, ghost lemmas); bounded stand-in for replace_subcircuit',
+claim('C19', 'other', 'contract-based deductive verification on the abstract heap: remove_gate, replace_inputs (incl. order of the remaining inputs) and rename_gate (closed-form loop invariants, ghost lemmas); bounded stand-in for replace_subcircuit',
       'Proved for an arbitrary well-formed circuit: remove_gate succeeds exactly for an existing unused gate, removes it from gates/users/inputs/outputs, drops blocks naming it and keeps WF; replace_inputs (<=2 labels per list) retypes exactly the listed inputs to the constants, '
       'removes them from the input list keeping the other inputs in their original order, leaves every other gate, the users index, outputs and blocks untouched, keeps WF, with exact raise conditions; rename_gate maps the whole state to its image under old -> new (gates, operand tuples position-wise, users counts, inputs and outputs position-wise, block lists), keeps WF, '
       'raises exactly for an absent old / present new label and then leaves the state untouched. replace_subcircuit is bounded-only (the cofactor statement follows from the retyping by rule R2); Block._rename_gate is proved position-wise for lists up to (2,3,2) and used by a count-level summary at its call site.',
@@ -114,7 +114,7 @@ claim('C12', 'other', 'contract-based deductive verification of the canonical-in
 
 for _k in ('C11', 'C17'):
     NA.pop(_k, None)
-claim('C11', 'other', 'contract-based deductive verification in the string theories of z3/cvc5: line classification and name/label extraction of the bench parser for every identifier label; bounded stand-in for whole texts',
+claim('C11', 'other', 'contract-based deductive verification in the string theories of z3/cvc5: line classification and name/label extraction of the bench parser for every identifier label; operator dispatch against the results of the two string parsers; bounded stand-in for operand splitting and whole texts',
       'Proved for EVERY identifier label (incl. labels beginning with input/output/vdd/buff): printed gate lines are classified as gate definitions, INPUT(..)/OUTPUT(..) lines as declarations, comments and blanks ignored; _parse_name_gate returns exactly (label, body) for several separator layouts; '
       'the declaration handlers recover exactly the label; the operator dispatch stores, for every operator name incl. the BUFF / vdd aliases, exactly one gate with the label, the denoted gate type and the operands in textual order. '
       'Operand splitting (_parse_operator_gate) and whole-text round trips / free layouts are bounded-only.',
